@@ -142,6 +142,14 @@ class Task:
                     return self._execute_main(kwargs)
             except Exception as e:
                 self._log_and_set_exception(e)
+            except BaseException as e:
+                # A KeyboardInterrupt (or SystemExit) can only get here when
+                # tasks run in the caller's thread (NonThreadedExecutor). Record
+                # it before the done callbacks run, so that a final task
+                # triggered by them does not report success, and let it
+                # propagate to the caller.
+                self._log_and_set_exception(e)
+                raise
             finally:
                 # Run any done callbacks associated to the task no matter what.
                 for done_callback in self._done_callbacks:
